@@ -15,13 +15,18 @@ token pool (text widths {0,1,2,7}, int digits {1,2,7(,10)}, signs, '.' placehold
 1..3 records with the neighbouring columns at an unequal-width baseline; all columns varied at once; adjacent column
 pairs (thorough); header lines 0..3; interior comments at every subset of gaps; LF/CRLF; FASTA at every wrap width x
 length; FASTQ with '@'/'+' as first quality character; VCF INFO key subsets/orders/prefix-named keys; genotype
-alphabets at every (record, sample) position; the same VCF read through several buffer types in one process.
+alphabets at every (record, sample) position; the same VCF read through several buffer types in one process;
+long decimal float texts (printf '%.Nf' / '%.Ne' output with N = 15..30, digit strings of 17..30 digits with the dot at every
+kind of position, i.e. texts beyond 18 digits / beyond int64 when read as one integer) in every float column (bedGraph, wig,
+narrowPeak x 3, VCF INFO Float Number=1 and Number=A) next to short neighbours, compared with float(text) within 16 ulp.
 
 Signatures: <format>:<column>:wrong-value:<zone> | <format>:count:wrong-number-of-entries:<zone> |
 <format>:exception:<root cause type>:<zone>; zone = class of the input (plain, empty, dot+number, signed, sci,
-list-trailing-comma, crlf, header, interior-comments, comment-with-tab, short-info-text, ...), never the varied column.
+list-trailing-comma, crlf, header, interior-comments, comment-with-tab, short-info-text, long-float, long-float-sci, ...),
+never the varied column.
 """
 import itertools
+import math
 import os
 
 from .common import Collector, TmpDir
@@ -310,6 +315,7 @@ def check_text(col, tmp, fmt, text, zone, modes=("lazy", "eager"), focus=None):
     signature = format : column : failure kind : zone   (zone = class of the input, never the focus column or a counter)"""
     data = text.encode("latin1")
     n_exp, exp = expected_of(fmt, data)
+    equal = long_float_equal if zone.startswith("long-float") else ref.values_equal
     suffix, _ = suffix_and_buffer(fmt)
     path = os.path.join(tmp, "f%d%s" % (col.evaluations % 7, suffix))
     with open(path, "wb") as f:
@@ -337,8 +343,27 @@ def check_text(col, tmp, fmt, text, zone, modes=("lazy", "eager"), focus=None):
                     continue
                 if isinstance(g, str) and isinstance(ee, list):
                     g = list(g)
-                col.check(ref.values_equal(g, ee), "%s:%s:wrong-value:%s" % (fmt, label, zone), case,
+                col.check(equal(g, ee), "%s:%s:wrong-value:%s" % (fmt, label, zone), case,
                           "column %s: got %r expected %r" % (label, g, ee))
+
+
+LONG_FLOAT_ULPS = 16
+
+
+def long_float_equal(got, exp):
+    """the comparison of the long-float zones: a float column holds float(text) within LONG_FLOAT_ULPS units in the last place
+    of the expected value (the property says "floats by value"; a vectorised parser that sums digit x power terms is not
+    correctly rounded, so a few ulp are granted - but not the 1e-9 relative slack of the short tokens, which would accept a
+    parser that keeps only 9 significant digits of a 20-digit text).  Everything that is not a float: ref.values_equal"""
+    if isinstance(exp, float) and not math.isnan(exp) and not math.isinf(exp):
+        if not isinstance(got, (int, float)) or isinstance(got, bool) or (isinstance(got, float) and math.isnan(got)):
+            return False
+        return abs(got - exp) <= LONG_FLOAT_ULPS * math.ulp(exp)
+    if isinstance(exp, (list, tuple)):
+        if not isinstance(got, (list, tuple)) or len(got) != len(exp):
+            return False
+        return all(long_float_equal(g, e) for g, e in zip(got, exp))
+    return ref.values_equal(got, exp)
 
 
 def expected_gt_text(data):
@@ -656,6 +681,138 @@ def gen_vcf_info(tier):
             yield "vcf-info", info_zone(infos, decl2, "partial-declaration"), render("vcf", rows, hdr2), le, "partial"
 
 
+# ---- long decimal float texts (every format with a float column)
+LONG_FLOAT_VALUES = [0.1, 1 / 3., 2.718281828459045, -7.4, 1234.5, -98765.4321, 0.000123456789, 9.5, 99.99, -5e-7,
+                     123456789.125, 0.97]
+LONG_FLOAT_SHORT = ["3", "0.5", "-0.75", "1e-3", "1234.125"]
+LONG_FLOAT_COLUMNS = {"bedgraph": [3], "wig": [3], "narrowpeak": [6, 7, 8]}
+
+
+def digit_string(nd, lead, salt):
+    return lead + "".join("0123456789"[(i * 7 + nd * 3 + salt) % 10] for i in range(nd - 1))
+
+
+def long_float_tokens(tier):
+    """the class "a decimal float text with many digits", as programs write it:
+      fixed   printf('%.Nf', v): N = 15..22, 25, 30 fraction digits of values of magnitude 1e-7 .. 1e8, both signs (the text of 0.1 with
+              N = 20 is 0.10000000000000000555; small values give leading zeros, large ones long integer parts)
+      digits  nd = 17..30 digit characters, first digit 1 or 9, the dot after the first digit / in the middle / before the
+              last digit / absent (an integer text in a float column), both signs: the widths around 18-20 digits, where the
+              digits read as one integer pass 2**63
+      sci     printf('%.Ne', v): the same mantissas followed by e+XX / e-XX
+    quick: a covering subset of N and nd.  Returns [(token, zone)]; tokens whose value is not a normal double are not made"""
+    quick = tier == "quick"
+    precs = (17, 18, 19, 20, 22, 25) if quick else (15, 16, 17, 18, 19, 20, 21, 22, 25, 30)
+    nds = (17, 18, 19, 20, 21) if quick else (17, 18, 19, 20, 21, 22, 25, 30)
+    eprecs = (17, 20) if quick else (15, 17, 19, 20, 25, 30)
+    out, seen = [], set()
+
+    def add(tok, zone):
+        if tok not in seen:
+            seen.add(tok)
+            out.append((tok, zone))
+    for v in LONG_FLOAT_VALUES:
+        for p in precs:
+            add("%.*f" % (p, v), "long-float")
+    k = 0
+    for nd in nds:
+        for lead in "19":
+            for dot in (1, nd // 2, nd - 1, None):
+                ds = digit_string(nd, lead, k)
+                signs = ("", "-") if not quick else ("-" if k % 2 else "",)
+                for sign in signs:
+                    add(sign + (ds if dot is None else ds[:dot] + "." + ds[dot:]), "long-float")
+                k += 1
+    for v in LONG_FLOAT_VALUES:
+        for p in eprecs:
+            add("%.*e" % (p, v), "long-float-sci")
+    return out
+
+
+def long_float_zone(zones):
+    return "long-float-sci" if "long-float-sci" in zones else "long-float"
+
+
+def gen_long_floats(tier, pools):
+    """yields (format, zone, text, modes, focus).  Every long token stands once in every float column of every delimited
+    format with one (bedGraph, wig, narrowPeak: signal / p / q value) in a file of 1..3 records, at a rotating record position,
+    the other records holding short float texts (so the column is very unequal in width); then files whose column holds
+    three long tokens of different widths; narrowPeak also with all three float columns long at once.  VCF: the token as the
+    value of a Float Number=1 INFO key and as an element of a Float Number=A list (1..3 elements, rotating position), alone
+    and between other keys, next to records with short / no values; thorough: also through the genotype-matrix buffer"""
+    quick = tier == "quick"
+    le = ("lazy", "eager")
+    toks = long_float_tokens(tier)
+    short = LONG_FLOAT_SHORT
+    for fmt, fcols in LONG_FLOAT_COLUMNS.items():
+        for j, c in enumerate(fcols):
+            name = FORMATS[fmt]["cols"][c][0]
+            for i, (tok, zone) in enumerate(toks):
+                if quick and len(fcols) > 1 and i % len(fcols) != j:
+                    continue            # quick: the three narrowPeak columns share the tokens between them
+                n = 1 + i % 3
+                pos = (i // 3) % n
+                rows = baseline(fmt, pools, n)
+                for r in range(n):
+                    rows[r][c] = tok if r == pos else short[(i + r) % len(short)]
+                modes = (le[i % 2],) if quick else (le + (("raw",) if fmt == "bedgraph" else ()))
+                yield fmt, zone, render(fmt, rows), modes, name
+            for i in range(0, len(toks) - 2, 3):
+                tr = [toks[i], toks[(i + 7) % len(toks)], toks[(i + 2 * 7 + 1) % len(toks)]]
+                rows = baseline(fmt, pools, 3)
+                for r in range(3):
+                    rows[r][c] = tr[r][0]
+                yield fmt, long_float_zone([z for _, z in tr]), render(fmt, rows), ((le[(i // 3) % 2],) if quick else le), name
+        if len(fcols) > 1:
+            for i in range(0, len(toks), 2 if quick else 1):
+                n = 1 + i % 2
+                rows = baseline(fmt, pools, n)
+                zs = []
+                for r in range(n):
+                    for j, c in enumerate(fcols):
+                        tok, z = toks[(i + 5 * j + 11 * r) % len(toks)] if (r + j + i) % 4 else (short[(i + j) % len(short)], "long-float")
+                        rows[r][c] = tok
+                        zs.append(z)
+                yield fmt, long_float_zone(zs), render(fmt, rows), ((le[i % 2],) if quick else le), "all-float-columns"
+    # VCF INFO: D (Float, Number=1), AF (Float, Number=A)
+    hdr = vcf_header("long-float")
+    for i, (tok, zone) in enumerate(toks):
+        n = 1 + i % 3
+        pos = (i // 3) % n
+        for key in ("D", "AF"):
+            if quick and (i + (key == "AF")) % 2:
+                continue                # quick: the tokens alternate between the scalar and the list key
+            infos = []
+            for r in range(n):
+                if r == pos:
+                    if key == "D":
+                        item = "D=" + tok
+                    else:
+                        m = 1 + (i // 2) % 3
+                        elems = [short[(i + e) % len(short)] for e in range(m)]
+                        elems[(i // 5) % m] = tok
+                        item = "AF=" + ",".join(elems)
+                    items = [["A=7"], [], ["AA=xy", "DB"]][(i // 2) % 3] + [item] + [[], ["DB"], ["MQ2=1,22"]][(i // 7) % 3]
+                else:
+                    items = [["D=" + short[(i + r) % len(short)]], ["AF=0.5,12.25"], ["A=3", "AF=" + short[i % len(short)]],
+                             ["AA=abc"]][(i + r) % 4]
+                infos.append(";".join(items))
+            rows = [vcf_fixed(r) + [infos[r]] for r in range(n)]
+            yield ("vcf-info", info_zone(infos, INFO_DECL, zone), render("vcf", rows, hdr),
+                   ((le[(i // 2) % 2],) if quick else le), "info-" + key)
+        if i % (8 if quick else 3) == 0:
+            # both keys long in one record; the same file through the genotype-matrix buffer (one sample column)
+            tok2 = toks[(i + 13) % len(toks)]
+            z = long_float_zone([zone, tok2[1]])
+            infos = ["D=%s;AF=%s,%s" % (tok, short[i % len(short)], tok2[0]), "AF=%s;D=%s" % (tok2[0], short[(i + 1) % len(short)])]
+            rows = [vcf_fixed(r) + [infos[r]] for r in range(2)]
+            yield "vcf-info", info_zone(infos, INFO_DECL, z), render("vcf", rows, hdr), le, "info-D+AF"
+            if not quick:
+                hdr_s = vcf_header("long-float-gt", INFO_DECL, ["s0"])
+                rows = [vcf_fixed(r) + [infos[r], "GT", ["0|1", "1/."][r]] for r in range(2)]
+                yield "vcf-matrix", info_zone(infos, INFO_DECL, z), render("vcf", rows, hdr_s), le, "info-D+AF"
+
+
 GT_ALPHA = {
     "vcf-matrix": [a + s + b for a in "012." for s in "|/" for b in "012."],
     "vcf-phased": ["0|0", "0|1", "1|0", "1|1"],
@@ -757,16 +914,25 @@ def run(tier="quick", seed=0):
                     "at once, 1..3 records; (C, thorough) adjacent column pairs; (D) 1..3 header lines, interior comments at every subset "
                     "of gaps; LF and CRLF; read modes lazy / eager / from_raw_buffer.  FASTA: every (length, wrap width); FASTQ/2-line "
                     "FASTA: every width tuple; VCF: INFO key subsets and orders (ordered pairs of %d patterns), typed by the header; "
-                    "genotype alphabets rotated through every (record, sample) position, 0..3 samples.  No random sampling (seed unused). "
+                    "genotype alphabets rotated through every (record, sample) position, 0..3 samples.  Long decimal float texts (printf "
+                    "%%.Nf / %%.Ne output, 17..30-digit strings with the dot at first/middle/last/no position, both signs) once in every "
+                    "float column of bedGraph, wig, narrowPeak and as VCF INFO Float scalar / list element, 1..3 records, rotating "
+                    "record position, short neighbours; compared with float(text) within %d ulp.  No random sampling (seed unused). "
                     "distinct = distinct (format, file text, read mode); every case is non-trivial (>= 1 record whose offsets are computed)"
-                    % ("" if quick else ",10", 10 if quick else len(INFO_PATTERNS)))
+                    % ("" if quick else ",10", 10 if quick else len(INFO_PATTERNS), LONG_FLOAT_ULPS))
     col.bounds = {"records": "1..3", "text widths": [0, 1, 2, 7], "int digits": [1, 2, 7] + ([] if quick else [10]),
                   "float tokens": FLOAT_TOKENS, "list lengths": "1..3", "samples": "0..3", "header lines": "0..3",
                   "interior comments": "every subset of the n+1 gaps, n = 1..3",
                   "fasta": "L 1..%d x W in {1,2,3,4,9}; 1..3 records" % (6 if quick else 9),
                   "info keys": [k for k, _, _ in INFO_DECL], "info patterns": len(INFO_PATTERNS),
                   "formats": list(FORMATS) + list(EXTRA_FORMATS), "line ends": ["LF", "CRLF"],
-                  "read modes": ["lazy", "eager", "raw"]}
+                  "read modes": ["lazy", "eager", "raw"],
+                  "long float texts": "%d tokens: '%%.Nf' N in %s, '%%.Ne' N in %s of %d values 5e-7..1.2e8; digit strings of %s digits; "
+                                      "float columns: bedgraph.value, wig.value, narrowpeak.signal/p/q_value, vcf INFO D (Number=1), "
+                                      "AF (Number=A); tolerance %d ulp"
+                                      % (len(long_float_tokens(tier)), "17,18,19,20,22,25" if quick else "15..22,25,30",
+                                         "17,20" if quick else "15,17,19,20,25,30", len(LONG_FLOAT_VALUES),
+                                         "17..21" if quick else "17..22,25,30", LONG_FLOAT_ULPS)}
     import logging
     logger = logging.getLogger("bionumpy")
     level = logger.level
@@ -779,6 +945,10 @@ def run(tier="quick", seed=0):
                     break
             for text, order in type_sequence_cases():      # 10 cases, run even when the budget cut the loop above
                 check_type_sequence(col, tmp, text, order)
+            # long decimal float texts: a bounded block of its own (a few seconds quick, under a minute thorough), also run
+            # when the budget cut the main loop
+            for fmt, zone, text, modes, focus in gen_long_floats(tier, make_pools(tier)):
+                check_text(col, tmp, fmt, text, zone, modes, focus)
     finally:
         logger.setLevel(level)
     return col.result()
